@@ -239,6 +239,12 @@ def judge(code, ep, text, ana):
         is_script = c == "Contract" and idn[1] not in ("p2pkh", "p2sh", "unknown")
         if rk in ("address", "wif", "xkey") and not is_script:
             fits = [k for k in ana["good"] if family(k) == rk and k in CAN[ep]]
+            if fits and rk == "address":
+                # faithful: the Contract must denote the script the address text encodes (reference decoding)
+                want = set(R.script_for(k, pl).hex() for k, pl in R.decode_address(R.NETWORK_PARAMS[code], text) if k in ("p2pkh", "p2sh"))
+                if want and idn[2] not in want:
+                    return BAD("unfaithful", "%s(%s address) denotes script %s" % (ep, fits[0], sorted(want)[0]), "script %s (type %s)" % (idn[2], idn[1]),
+                               clause="address-script-differs", kind=rk, ep=ep)
             if not fits:
                 others = [k for k in ana["good"] if family(k) != rk]
                 mal = [(k, rest) for k, rest in ana["malformed"] if family(k) == rk and k in CAN[ep]]
@@ -533,7 +539,10 @@ def text_grid(code, tier, seed):
             ("3QJmnh", "3QJmnh"), ("one-b58-char", "z"), ("bech32-sep-only", "1"), ("bech32-nohrp", "1qqqqqqqq"), ("bech32-empty-data", "bc1gmk9yu"),
             ("bech32-bip173-valid-nonsegwit", "a12uel5l"), ("opcode", "OP_DUP"), ("script-text", "OP_DUP OP_HASH160 [%s] OP_EQUALVERIFY OP_CHECKSIG" % ("11" * 20)),
             ("script-bad", "OP_FOO"), ("script-quote", "'abc'"), ("script-unbalanced", "[abc"), ("script-int", "-1 0 16 17"),
-            ("hex-32-bytes", "ab" * 32), ("hex-20-bytes", "ab" * 20)]
+            ("hex-32-bytes", "ab" * 32), ("hex-20-bytes", "ab" * 20),
+            # Python strings may hold lone surrogates (not encodable as UTF-8)
+            ("lone-surrogate", "\ud800"), ("P:lone-surrogate", "P:\ud800"), ("H:lone-surrogate", "H:\udfff"), ("E:lone-surrogate", "E:\ud800"),
+            ("b58+lone-surrogate", "1A1zP1eP5QGefi2DMPTfTL5SLmv7DivfNa\udc80"), ("lone-surrogate-pair-reversed", "\udc00\ud800")]
     # Base58 decoding in pycoin is quadratic in the length: strings made only of Base58 characters are kept at
     # NB characters (0.3 s per decode at 2*10^4), strings that fail at an early character or decode linearly at NL
     main = code in ("BTC", "POLIS", "GRS")
@@ -615,7 +624,13 @@ class Cache(Driver):
     def __init__(self, tier, seed):
         Driver.__init__(self, tier, seed)
         self.nets = ["BTC", "POLIS", "GRS"] if tier == "quick" else ["BTC", "POLIS", "GRS", "LTC", "ZEC", "CHC", "XTN", "DCR", "DOGE"]
-        self.xnets = [("BTC", "LTC"), ("LTC", "BTC"), ("BTC", "GRS"), ("GRS", "BTC"), ("BTC", "BCH"), ("XTN", "XRT"), ("CHC", "ZEC"), ("ZEC", "CHC")]
+        self.xnets = [("BTC", "LTC"), ("LTC", "BTC"), ("BTC", "GRS"), ("GRS", "BTC"), ("BTC", "BCH"), ("XTN", "XRT"), ("CHC", "ZEC"), ("ZEC", "CHC"),
+                      # networks that share a network_name (a cache keyed by the name alone would mix them up)
+                      ("BTC", "XTN"), ("XTN", "BTC"), ("BTC", "XRT"), ("XRT", "BTC"), ("LTC", "XLT"), ("XLT", "LTC"), ("BCH", "XCH"),
+                      ("DASH", "TDASH"), ("DCR", "DCRT"), ("DCRT", "DCR"), ("ZEC", "TZEC"), ("DOGE", "XDT")]
+        if tier == "thorough":
+            self.xnets += [("BTG", "XTG"), ("BTX", "TBTX"), ("CHC", "TCHC"), ("FTC", "FTX"), ("MONA", "TMONA"), ("PIVX", "TPIVX"), ("STAK", "TSTAK"),
+                           ("VIA", "TVI"), ("XCH", "BCH"), ("TDASH", "DASH"), ("TZEC", "ZEC"), ("XDT", "DOGE")]
         self.xeps = ["address", "wif", "bip32", "sec", "__call__"]
         self.bound = dict(networks=self.nets, entry_point_pairs=len(EPS) ** 2, strings=[l for l, t in cache_strings("BTC", seed)],
                           cross_network_pairs=["%s->%s" % p for p in self.xnets], cross_network_entry_points=self.xeps)
@@ -668,8 +683,7 @@ class Cache(Driver):
 DRIVERS = [B58, Bech32, Text, Cache]
 
 ASSUMPTIONS = [
-    "'all unicode strings' is explored through the stated string grid; strings containing lone surrogates (not encodable, not "
-    "JSON-representable) are outside the space",
+    "'all unicode strings' is explored through the stated string grid (which includes strings with lone surrogates)",
     "a network's prefixes are those of the pinned table vf/ref/addr.py (checked against the tree by C08.params)",
     "equality of parsed objects = class family, secret exponent, public pair, compression flag, and for extended keys chain code, "
     "depth, parent fingerprint and child index; for contracts the script bytes and reported type",
